@@ -312,9 +312,18 @@ func (s *State) fork() *State {
 	return n
 }
 
+// allocSymsNow: the allocation symbols of the unit being generated (an allocated reference is never nil; a path that
+// assumes it is nil is dead and is cut at once instead of being carried along as a vacuous state).
+var allocSymsNow map[Term]bool
+
 func (s *State) assume(t Term) {
 	if t == "true" {
 		return
+	}
+	if strings.HasPrefix(t, "(= ") && strings.HasSuffix(t, " 0)") {
+		if x := t[3 : len(t)-3]; allocSymsNow[x] {
+			t = "false"
+		}
 	}
 	s.pc = append(s.pc, t)
 }
